@@ -3,6 +3,7 @@
 package apk
 
 import (
+	"archive/zip"
 	"bytes"
 	"crypto"
 	"crypto/x509"
@@ -13,6 +14,33 @@ import (
 	"github.com/sassoftware/relic/v8/lib/certloader"
 	"github.com/sassoftware/relic/v8/lib/zipslicer"
 )
+
+// the same one-member archive with its end-of-directory area in ZIP64 form
+// (ZIP64 end record, locator, and a classic end record whose fields are all
+// ones): what an APK with 65535+ members or a 4 GiB+ directory offset has
+func vhApkZip64(between []byte) []byte {
+	plain := vhApkZip(between)
+	le := binary.LittleEndian
+	eocd := len(plain) - 22
+	cdOff := int(le.Uint32(plain[eocd+16:]))
+	cdSize := int(le.Uint32(plain[eocd+12:]))
+	var f bytes.Buffer
+	f.Write(plain[:eocd])
+	binary.Write(&f, le, uint32(0x06064b50))
+	binary.Write(&f, le, uint64(44))
+	binary.Write(&f, le, []uint16{45, 45})
+	binary.Write(&f, le, []uint32{0, 0})
+	binary.Write(&f, le, []uint64{1, 1, uint64(cdSize), uint64(cdOff)})
+	binary.Write(&f, le, uint32(0x07064b50))
+	binary.Write(&f, le, uint32(0))
+	binary.Write(&f, le, uint64(eocd))
+	binary.Write(&f, le, uint32(1))
+	binary.Write(&f, le, uint32(0x06054b50))
+	binary.Write(&f, le, []uint16{0, 0, 0xffff, 0xffff})
+	binary.Write(&f, le, []uint32{0xffffffff, 0xffffffff})
+	binary.Write(&f, le, uint16(0))
+	return f.Bytes()
+}
 
 type vhApkSigner struct{ calls int }
 
@@ -32,7 +60,10 @@ func (s *vhApkSigner) Sign(rand io.Reader, digest []byte, opts crypto.SignerOpts
 // exactly one well-framed signing block holding the new signer blob (the old
 // one gone), then the central directory byte-identical, then an end record
 // whose directory offset is where the directory now is and whose other
-// fields are unchanged.
+// fields are unchanged - and for an input whose end-of-directory area is in
+// ZIP64 form although it need not be (ZIP64 record + locator + all-ones classic
+// record): one classic end record pointing at the moved directory and nothing
+// left over from the longer old area; the standard zip reader opens the result.
 func VH_C03_ApkSignPatch() {
 	// vh:stubbed
 	vhMaxLen(4096)
@@ -41,10 +72,16 @@ func VH_C03_ApkSignPatch() {
 	if vhBool("already-signed") {
 		old = makeSigBlock(vhBytes("old-signers", vhConcretize(vhInt("old-signers-bytes", 1, 3), 4)))
 	}
+	zip64 := vhBool("zip64-end-records")
 	file := vhApkZip(old)
+	tail := 22
+	if zip64 {
+		file = vhApkZip64(old)
+		tail = 56 + 20 + 22
+	}
 	const memberEnd = 30 + 1 + 1
 	oldCD := memberEnd + len(old)
-	eocdPos := len(file) - 22
+	eocdPos := len(file) - tail
 	p := vhFSPath("in.apk")
 	vhFSPut(p, file)
 	f, err := os.Open(p)
@@ -80,18 +117,34 @@ func VH_C03_ApkSignPatch() {
 
 	le := binary.LittleEndian
 	block := makeSigBlock(signers)
-	vhAssert(len(out) == len(file)-len(old)+len(block), "size-changes-by-the-block-difference")
+	if !zip64 {
+		vhAssert(len(out) == len(file)-len(old)+len(block), "size-changes-by-the-block-difference")
+	}
 	vhAssert(bytes.Equal(out[:memberEnd], file[:memberEnd]), "entries-untouched")
 	vhAssert(bytes.Equal(out[memberEnd:memberEnd+len(block)], block), "one-well-framed-block-with-the-new-signers")
 	newCD := memberEnd + len(block)
 	cdLen := eocdPos - oldCD
 	vhAssert(bytes.Equal(out[newCD:newCD+cdLen], file[oldCD:eocdPos]), "central-directory-byte-identical")
 	eocd := out[newCD+cdLen:]
-	vhAssert(len(eocd) == 22 && le.Uint32(eocd) == 0x06054b50, "end-record-last")
-	vhAssert(int(le.Uint32(eocd[16:])) == newCD, "end-record-points-at-the-moved-directory")
 	want := append([]byte{}, file[eocdPos:]...)
-	le.PutUint32(want[16:], uint32(newCD))
+	if zip64 {
+		// a one-member archive does not need ZIP64 records: the rewritten
+		// end-of-directory area is a classic record and nothing else follows
+		want = make([]byte, 22)
+		le.PutUint32(want, 0x06054b50)
+		le.PutUint16(want[8:], 1)
+		le.PutUint16(want[10:], 1)
+		le.PutUint32(want[12:], uint32(cdLen))
+		le.PutUint32(want[16:], uint32(newCD))
+		vhAssert(len(eocd) == 22, "nothing-left-over-from-the-longer-zip64-area")
+	} else {
+		vhAssert(len(eocd) == 22 && le.Uint32(eocd) == 0x06054b50, "end-record-last")
+		vhAssert(int(le.Uint32(eocd[16:])) == newCD, "end-record-points-at-the-moved-directory")
+		le.PutUint32(want[16:], uint32(newCD))
+	}
 	vhAssert(bytes.Equal(eocd, want), "other-end-record-fields-unchanged")
+	zr, zerr := zip.NewReader(bytes.NewReader(out), int64(len(out)))
+	vhAssert(zerr == nil && len(zr.File) == 1, "standard-zip-reader-opens-the-signed-archive")
 	// relic's own locator agrees
 	q := vhFSPath("out.apk")
 	vhFSPut(q, out)
